@@ -11,10 +11,10 @@ LEVEL = 'exploration'
 TIERS = {'quick': 5000, 'thorough': 150000}
 RULE = ('seeded pulls: device file content/size (0 .. big), DATA record size sequences (1 .. 64 KiB), WRTE boundaries anywhere incl. inside the 8-byte '
         'sync header (cut policies whole/record/random/tiny/straddle/one), all read fragmentations, destination path or BytesIO, callback absent / '
-        'counting / raising (=> nested stat stream); cases with a callback are re-run without it and destinations compared. '
+        'counting / raising (=> nested stat stream), sometimes preceded by a pull whose destination fails mid-transfer; cases with a callback are re-run without it and destinations compared. '
         'non-trivial = a sync header was split across two WRTEs; distinct = event-log digests')
 ASSUMPTIONS = ['adbd keeps serving the sync connection after RECV; the host closes the stream']
-EXPECT_PROBES = {'all': ['sync_header_split_across_wrte', 'c08_callback', 'c08_file_dest', 'c08_multi_record']}
+EXPECT_PROBES = {'all': ['sync_header_split_across_wrte', 'c08_callback', 'c08_file_dest', 'c08_multi_record', 'c08_aborted_pull_first']}
 OWN = ('wrong-result', 'unexpected-exception', 'timeout-instead-of-result', 'missing-exception', 'wrong-exception', 'hang', 'no-termination',
        'callback-count', 'pull-requests', 'pull-not-closed', 'cb-changes-result', 'unacked-write')
 
@@ -30,6 +30,12 @@ def generate(seed, tier):
         p = S.add_file(g, d, big if g.chance(0.3) else 5000)
         total += d['fs'][p]['content']['size']
         ops.append(S.timeouts(g, {'op': 'pull', 'path': p, 'dest': g.pick(['bytesio', 'file']), 'cb': g.pick([None, 'count', 'raise'])}))
+    if g.chance(0.15):
+        # the destination fails in the middle of a multi-record pull; the next pull on the same connection must be unaffected
+        p0 = S.add_file(g, d, 20000)
+        d['fs'][p0]['content']['size'] = g.int(3000, 30000)
+        d['fs'][p0]['records'] = [g.pick([500, 1000, 2000])]
+        ops.insert(0, {'op': 'pull', 'path': p0, 'dest': 'failing', 'fail_after': g.int(0, 3)})
     for plan in d['cut_plans']:
         if plan['policy'] == 'one' and total > 3000:
             plan['policy'] = 'straddle'
@@ -70,6 +76,8 @@ def evaluate(case, tapes=None):
             pr['c08_multi_record'] = 1
         if op.get('dest') == 'file':
             pr['c08_file_dest'] = 1
+    if any(op.get('dest') == 'failing' for op in ops):
+        pr['c08_aborted_pull_first'] = 1
     has_cb = any(op.get('cb') for op in ops)
     if has_cb:
         pr['c08_callback'] = 1
